@@ -42,6 +42,10 @@ def shapes(tier):
     for nt in range(1, (2 if tier == "quick" else 4) + 1):
         for clean in (True, False):
             out.append({"kind": "cov", "nt": nt, "clean": clean, "tref": "default"})
+    # Time input on another scale than TCB; a 3x3 covariance (mask / index-array subsets keep the off-diagonal terms)
+    out.append({"kind": "1d", "nt": 2, "clean": True, "tref": "default", "tin": "time", "tscale": "tdb"})
+    out.append({"kind": "1d", "nt": 1, "clean": False, "tref": "default", "tin": "time", "tscale": "utc"})
+    out.append({"kind": "cov", "nt": 3, "clean": False, "tref": "default", "skip_ivar": tier == "quick"})      # (the 3x3 inverse is decided in the thorough tier)
     # uncertainties in another unit than the velocities
     out.append({"kind": "1d", "nt": 2, "clean": True, "tref": "default", "err_unit": True})
     out.append({"kind": "cov", "nt": 2, "clean": False, "tref": "default", "err_unit": True})
@@ -138,7 +142,7 @@ def _triple_claims(shape, inp, kept, t_out, rv_out, err_out, cov_out):
     match = [[None] * nt for _ in range(n_out)]
     for k in range(n_out):
         for i in range(nt):
-            same = [L(t_out[k]) == L(inp["t"][i]), L(rv_out[k]) == L(inp["rv"][i])]
+            same = [L(t_out[k]) == L(inp.get("t_spec", inp["t"])[i]), L(rv_out[k]) == L(inp["rv"][i])]
             if err_out is not None:
                 same.append(L(err_out[k]) == L(inp["err"][i]))
             match[k][i] = z3.And(kept[i], *same)
@@ -192,7 +196,11 @@ def run_shape(shape, tier):
             for i in range(nt):
                 if ("t", i) in inp["flags"]:
                     core.assume(inp["flags"][("t", i)])
-        d = RVData(units.Time(inp["t_arr"], scale="tcb") if as_time else inp["t_arr"], inp["rv_q"], inp["rv_err_q"], t_ref=inp["t_ref"], clean=shape["clean"])
+        tin = inp["t_arr"]
+        if as_time:
+            tin = units.Time(inp["t_arr"], scale=shape.get("tscale", "tcb"))
+            inp["t_spec"] = list(tin.tcb._v.a)       # the observations' barycentric (TCB) MJD, whatever scale they were given on
+        d = RVData(tin, inp["rv_q"], inp["rv_err_q"], t_ref=inp["t_ref"], clean=shape["clean"])
         return inp, d
 
     ex = core.Explorer(max_paths=5000)
@@ -226,7 +234,8 @@ def run_shape(shape, tier):
             if ex.n_paths % 2 == 1:
                 add_witness(res, path, desc, site="RVData")
             # derived quantities
-            _check_ivar_cov(sink, path, shape, inp, d, desc)
+            if not shape.get("skip_ivar"):
+                _check_ivar_cov(sink, path, shape, inp, d, desc)
             # copy(): same observations, same pairing, same units, same reference epoch
             try:
                 c = d.copy()
@@ -476,12 +485,20 @@ def _replay_once(cand, fill):
     t_in, rv_in, err_in = t.copy(), rv.copy(), np.array(err_q.value, copy=True)
     try:
         as_time = (nt % 2 == 0) if shape.get("tin") is None else shape["tin"] == "time"
-        d = RVData(Time(t, format="mjd", scale="tcb") if as_time else t, rv * vunit, err_q, t_ref=t_ref, clean=shape["clean"])
+        d = RVData(Time(t, format="mjd", scale=shape.get("tscale", "tcb")) if as_time else t, rv * vunit, err_q, t_ref=t_ref, clean=shape["clean"])
     except Exception as e:
         if not keep.any():
             return {"reproduced": False, "detail": "constructor raised on all-non-finite input (allowed)"}
         return {"reproduced": True, "detail": "RVData(...) raised %s: %s" % (type(e).__name__, str(e)[:200])}
     bad = []
+    if as_time and shape.get("tscale", "tcb") != "tcb":
+        # expectations are stated on TCB, the scale RVData stores
+        okf = np.isfinite(t)
+        t_tcb = t.copy()
+        t_tcb[okf] = Time(t[okf], format="mjd", scale=shape["tscale"]).tcb.mjd
+        t_in = t_in.copy()
+        t_in[okf] = t_tcb[okf]
+        t = t_tcb
     if not (np.array_equal(t, t_in, equal_nan=True) and np.array_equal(rv, rv_in, equal_nan=True) and np.array_equal(np.asarray(err_q.value), err_in, equal_nan=True)):
         bad.append("the constructor modified the caller's input arrays (t %s -> %s)" % (t_in.tolist(), t.tolist()))
         t, rv = t_in.copy(), rv_in.copy()
@@ -560,4 +577,16 @@ def _replay_once(cand, fill):
         sl = [slice(0, 1)] + ([slice(1, None), slice(None, None, 2)] if n >= 2 else [])
         for s in sl:
             same_obs(d[s], td, rd, ed, np.arange(n)[s], "slice %s" % (s,))
+        if n >= 3:
+            # boolean-mask and index-array subsets (same rows as in the symbolic shapes)
+            mask = np.array([True] + [False] * (n - 2) + [True])
+            for what_, sel_ in (("mask", mask), ("index array", np.array([0, n - 1]))):
+                try:
+                    sub = d[sel_]
+                    if shape["kind"] == "cov" and (sub.rv_err.ndim != 2 or sub.rv_err.shape != (2, 2) or not sub.rv_err.unit.is_equivalent(d.rv_err.unit)):
+                        bad.append("%s subset of covariance data holds rv_err of shape %s, unit %s" % (what_, sub.rv_err.shape, sub.rv_err.unit))
+                    else:
+                        same_obs(sub, td, rd, ed, np.array([0, n - 1]), "subset by %s" % what_)
+                except Exception as e:
+                    bad.append("subset by %s raised %s: %s" % (what_, type(e).__name__, str(e)[:120]))
     return {"reproduced": bool(bad), "detail": "; ".join(bad)[:900] or "real RVData agrees with the property"}
